@@ -1,3 +1,4 @@
+import Fpdec.Kernels.IntOps
 import Fpdec.Kernels.DecOps
 import Fpdec.Kernels.DecMul
 import Fpdec.Kernels.WideFits
@@ -579,5 +580,20 @@ theorem kernel_decimal_checked_div (prof : Profile) (tm : Mode) (x y : Dec) (hx 
 theorem kernel_decimal_div_rounded (prof : Profile) (tm : Mode) (x y : Dec) (n : Nat) (hx : fitsI128 x.coeff = true)
     (hp : x.nfrac ≤ 38) :
     Gen.K.decimal_div_rounded prof tm x y n = divRounded prof tm x y n := Kernels.decimal_div_rounded_eq prof tm x y n hx hp
+
+/-- the integer forms of `/` and `checked_div` (both operand orders), as translated on this run -/
+theorem kernel_decimal_div_int (prof : Profile) (tm : Mode) (d : Dec) (i : Int) (hd : fitsI128 d.coeff = true) (hp : d.nfrac ≤ 38) :
+    Gen.K.decimal_div_int prof tm d i = opOfChecked (i = 0) (divDecInt prof tm d i) :=
+  Kernels.decimal_div_int_eq prof tm d i hd hp
+theorem kernel_decimal_checked_div_int (prof : Profile) (tm : Mode) (d : Dec) (i : Int) (hd : fitsI128 d.coeff = true)
+    (hp : d.nfrac ≤ 38) :
+    Gen.K.decimal_checked_div_int prof tm d i = checkedOfChecked (i = 0) (divDecInt prof tm d i) :=
+  Kernels.decimal_checked_div_int_eq prof tm d i hd hp
+theorem kernel_int_div_decimal (prof : Profile) (tm : Mode) (i : Int) (d : Dec) (hi : fitsI128 i = true) :
+    Gen.K.int_div_decimal prof tm i d = opOfChecked (eqZero d) (divIntDec prof tm i d) :=
+  Kernels.int_div_decimal_eq prof tm i d hi
+theorem kernel_int_checked_div_decimal (prof : Profile) (tm : Mode) (i : Int) (d : Dec) (hi : fitsI128 i = true) :
+    Gen.K.int_checked_div_decimal prof tm i d = checkedOfChecked (eqZero d) (divIntDec prof tm i d) :=
+  Kernels.int_checked_div_decimal_eq prof tm i d hi
 
 end Fpdec.Props.C04
